@@ -69,6 +69,20 @@ theorem lemma_transfer (P : Params) (cfg : Cfg) (s : Src) (l : Leaf) (k : Nat) (
         | some c => simpa [hc] using he
 
 
+theorem lemma_transfer_expect (P : Params) (cfg : Cfg) (s : Src) (l : Leaf) (k : Nat) (ns : List Bytes)
+    (Init init : Val)
+    (hinit : valAt Init (k :: l.path) = valAt init l.path ∨
+      (valAt Init (k :: l.path) = none ∧ (valAt init l.path = none ∨ valAt init l.path = some (zero l.ty)))) :
+    expect P cfg s Init { l with path := k :: l.path, names := ns } = expect P cfg s init l := by
+  unfold expect
+  have hm : mapOf (valAt Init (k :: l.path)) = mapOf (valAt init l.path) := by
+    rcases hinit with h | ⟨h1, h2 | h2⟩
+    · rw [h]
+    · rw [h1, h2]
+    · rw [h1, h2, lemma_mapOf_zero]; rfl
+  simp only [hm]
+  rfl
+
 /-- in a zero value the leaf has nothing, or the zero value of its own type -/
 def ZeroLike (v : Val) (l : Leaf) : Prop := valAt v l.path = none ∨ valAt v l.path = some (zero l.ty)
 
